@@ -13,6 +13,15 @@ TEXT = {
          "set construction order/duplicate-insensitive, contains/containsAll/containsAny/isEmpty, in/has/getAttr/is, like = declarative matcher for all patterns "
          "and strings); the model is the definition: any disagreement with Evaluator::interpret on the generated stream is a failing input.",
          "proof over a hand-written model; correspondence sampled through 6 routes (text, AST, EST, eval_expression, when, unless); error classes only"),
+ "C19": ("Lean theorems over the mirror of the FFI's stateful layer (two name->parsed-document caches, preparse_policy_set / preparse_schema insert on parse success only, "
+         "stateful_is_authorized = lookup, missing name => Failure, then the stateless tail), with the document parsers and the authorization tail as arbitrary parameters: "
+         "cache_refines_latest (after any call history a stateful call answers what the stateless call answers on the latest successfully registered documents; induction over "
+         "the history against a 'last acknowledged write' spec), every_reply_refines_latest, failed_preparse_changes_nothing, reregistration_overwrites, "
+         "stateful_calls_change_nothing, and the CLI exit-code table (exit_code_table, authorize_exit_reflects_response, validate_exit_table). That the FFI and the CLI "
+         "assemble their inputs as the Rust API does (decision, determining policies, erroring ids, validation error ids, converted documents, in every input shape) is NOT a "
+         "model theorem: it is checked by the differential run only (ffi vs API, stateful vs stateless, cedar binary vs API), and cache histories are diffed against the model.",
+         "proof covers the cache/lookup refinement and the exit-code table only; input assembly vs the API is sampled differential testing (harness/src/c19.rs); "
+         "cedar-wasm glue not executable here; CLI built with default features"),
  "C07": ("Lean theorems over mirrors of the decimal/ip/datetime/duration parsers and operations (written-out recognisers + checked arithmetic); the model is the "
          "definition of 'exact': any disagreement with the real extension functions on generated strings/values is a failing input.",
          "proof over a hand-written model; std::net / chrono / regex are inside the implementation under check and are re-defined in the model"),
